@@ -440,9 +440,18 @@ class ConditionLike:
                         f"types are: {list(DTYPE_LOOKUP.keys())!r}."
                     )
 
+            # look up the callable (case-insensitively) among the condition callables
+            # available to this condition type, rather than among all class attributes:
+            known_callables = {
+                name.lower(): name
+                for callables_cls in (GeneralCallables, MapCallables)
+                if issubclass(cls, callables_cls)
+                for name, member in vars(callables_cls).items()
+                if isinstance(member, classmethod)
+            }
             try:
-                cond_method = getattr(cls, cond_call_str)
-            except AttributeError:
+                cond_method = getattr(cls, known_callables[cond_call_str])
+            except KeyError:
                 msg = (
                     f'Condition callable "{cond_call_str}" is not known or not '
                     f'compatible with specified condition type "{condition_type_str}"'
